@@ -44,7 +44,7 @@ MUTATIONS = ['undeclared', 'redeclare-global', 'redeclare-proc', 'array-as-scala
              'long-string', 'array-len-0', 'array-len-negative', 'array-len-huge', 'big-literal', 'empty-file', 'no-main', 'label-like-names',
              'deep-parens', 'deep-if', 'long-seq', 'bad-syscall', 'syscall-no-args', 'syscall-many-args', 'return-in-proc', 'no-return',
              'high-bytes', 'local-array', 'duplicate-formal', 'main-with-formals', 'recursive-val', 'val-cycle', 'val-cycle-local',
-             'array-len-cycle', 'val-chain-long', 'comment-eof', 'string-eof', 'char-eof', 'token-eof']
+             'array-len-cycle', 'val-chain-long', 'comment-eof', 'string-eof', 'char-eof', 'token-eof', 'proc-as-variable']
 
 
 def gen_source(r, want_mutation=None):
@@ -101,6 +101,10 @@ def apply(r, P, m, text):
                     x = ('paren', x)
                 return x
             return None
+    elif m == 'proc-as-variable':
+        # the name of a procedure or function where a variable is expected: as a value, as a subscripted array, as an actual
+        pn = [q['name'] for q in procs if q['name'] != 'main'] or ['main']
+        fe = lambda e: (('var', r.choice(pn)) if r.random() < 0.6 else ('idx', r.choice(pn), ('num', r.randint(0, 2)))) if e[0] in ('var', 'num') and pick() else None
     else:
         fe = lambda e: None
 
@@ -211,8 +215,20 @@ def apply(r, P, m, text):
     if m == 'empty-file':
         return P, r.choice(['', '\n', '| just a comment', '   '])
     if m == 'high-bytes':
+        # bytes >= 0x80 in a string, a character constant, a comment or a name.  0xFF is the lexer's end-of-file sentinel: a source
+        # containing it is cut short there, so it is included only sometimes (otherwise nothing after the lexer ever sees the rest)
         t = xlang.p_prog(P)
-        return P, t.replace('proc main', 'proc q9(array s) is skip\nproc main', 1).replace('is', 'is', 1) + '\n' + 'proc zz() is q9("\xe9\xff\x80")\n'
+        hb = ''.join(chr(r.choice([0x80, 0xE9, 0xFE, 0xA0, 0xC3, 0x61, 0x7F])) for _ in range(r.randint(1, 9)))
+        if r.random() < 0.15:
+            hb += '\xff'
+        where = r.randrange(4)
+        if where == 0:
+            return P, t.replace('proc main', 'proc q9(array s) is 1(s[0], 0)\nproc main', 1) + '\nproc zz() is q9("' + hb + '")\n'
+        if where == 1:
+            return P, t + "\nproc zz() is 1('" + hb[0] + "', 0)\n"
+        if where == 2:
+            return P, t.replace('\n', ' | ' + hb + '\n', 1)
+        return P, t + '\nproc n' + hb + '() is skip\n'
     if m == 'local-array':
         t = xlang.p_prog(P)
         return P, t
